@@ -84,14 +84,20 @@ func c11Body(c *mc.Ctx) {
 	}
 	// tokens may carry, besides their text, an ID assigned by some other table; the text decides
 	var wopts *drive.WriteOpts
+	finishEach := false
 	if api < 2 {
 		wopts = &drive.WriteOpts{ForeignSID: []int64{0, 4, 11}[c.Pick("token.sid", 3)]}
+		// one Writer, one batch per value: each batch's table must carry what that batch uses
+		finishEach = len(uses) > 1 && c.Pick("finish-each", 2) == 1
 	}
 	apis := []string{"NewBinaryWriter(ssts)", "NewBinaryWriterLST", "MarshalBinary(ssts)", "MarshalBinaryLST"}
 	c.Case(func() string {
 		s := fmt.Sprintf("%s imports=%v uses=%v", apis[api], imps, uses)
 		if wopts != nil && wopts.ForeignSID != 0 {
 			s += fmt.Sprintf(" tokens-also-carry-sid=%d", wopts.ForeignSID)
+		}
+		if finishEach {
+			s += " Finish-after-each-value"
 		}
 		return s
 	})
@@ -126,8 +132,11 @@ func c11Body(c *mc.Ctx) {
 			} else {
 				w = ion.NewBinaryWriter(&buf, ssts...)
 			}
-			for _, v := range vals {
+			for i, v := range vals {
 				errs = append(errs, drive.WriteValue(w, v, wopts))
+				if finishEach && i < len(vals)-1 {
+					errs = append(errs, w.Finish())
+				}
 			}
 			errs = append(errs, w.Finish())
 		})
@@ -201,7 +210,11 @@ func c11Body(c *mc.Ctx) {
 				return
 			}
 		} else if bad >= 0 {
-			for i := bad; i < len(errs); i++ {
+			from := bad
+			if finishEach {
+				from = 2 * bad // a Finish result follows each value's result
+			}
+			for i := from; i < len(errs); i++ {
 				if errs[i] == nil {
 					c.Fail("missing-error", "fixed-table-unknown-text", "call #%d succeeded although call #%d used text outside the fixed table (errors: %v)", i, bad, errs)
 					return
